@@ -253,6 +253,17 @@ func (x *ctx) lengths(c Case) {
 			}
 		}
 	}
+	// wrong-length points that are re-slices of the exported Basepoint (same first element, other length), and a
+	// 32-byte re-slice of a longer buffer that merely starts with the base point
+	for l := 0; l < 32; l++ {
+		var o2 []byte
+		var e2 error
+		pan, msg := mon.Try(func() { o2, e2 = x25519.X25519(good, x25519.Basepoint[:l]) })
+		r.Eval([]byte(fmt.Sprintf("basepoint-prefix/%d", l)))
+		if pan || e2 == nil || o2 != nil {
+			r.Violate("x25519/X25519/length/Basepoint-prefix", fmt.Sprintf("X25519(k, Basepoint[:%d]): panic=%v(%s) err=%v out=%x", l, pan, msg, e2, o2), c)
+		}
+	}
 	var out []byte
 	var err error
 	pan, msg := mon.Try(func() { out, err = x25519.X25519(nil, nil) })
